@@ -804,6 +804,11 @@ structure Registry.Conforming (reg : Registry) : Prop where
   prompts : ∀ p ∈ reg.prompts, ∀ a r, p.run a = .result r → promptConforms r
   resources : ∀ e ∈ reg.resources, ∀ a cs, e.run a = .contents cs → cs.isSome = true
 
+/-- every integer the request offers as an id (under any spelling of the member name) is one a float64 holds exactly -/
+def idsExact : Option Json → Prop
+  | some (.obj o) => ∀ k i, (k, Json.int i) ∈ o → Mcp.Str.toLower k = t!"id" → i.natAbs ≤ two53
+  | _ => True
+
 /-- the JSON value of a body -/
 def Body.json? : Body → Option Json
   | .parseFail => none
